@@ -430,7 +430,9 @@ pub(crate) fn recv_timeout_sync<T: Send>(
           match receiver.shared.try_recv_core() {
             Ok(item) => return Ok(item),
             Err(TryRecvError::Disconnected) => return Err(RecvErrorTimeout::Disconnected),
-            Err(TryRecvError::Empty) => unreachable!("state was finished but channel empty"),
+            // Woken for an item that another receiver took first: the deadline has
+            // passed and nothing is available, which is exactly a timeout.
+            Err(TryRecvError::Empty) => return Err(RecvErrorTimeout::Timeout),
           }
         }
       }
